@@ -138,7 +138,12 @@ func NewModule(name string, code *compiler.Code) *Module {
 	globals := make([]Object, globalsCount)
 	for i := 0; i < globalsCount; i++ {
 		symbol := code.Global(i)
-		globalsIndex[symbol.Name()] = int(i)
+		// Only the variables declared at the top level of the module are its
+		// attributes, not the ones declared in a block there: those have
+		// slots of their own, possibly under the same name
+		if index, ok := code.GlobalIndex(symbol.Name()); ok && index == i {
+			globalsIndex[symbol.Name()] = i
+		}
 		value := symbol.Value()
 		switch value := value.(type) {
 		case int64:
